@@ -114,7 +114,21 @@ def generate(rng, tier):
 
 
 def execute(cases, tier):
-    return corr.execute_run_family(__import__("props.C02", fromlist=["x"]), cases, tier)
+    res = corr.execute_run_family(__import__("props.C02", fromlist=["x"]), cases, tier)
+    # "running a script or FILE": run_file on trees with includes and halts (generator and direct checks of C14)
+    import random
+    from props import C14
+    rng = random.Random(len(cases) * 7919 + 5)
+    fcases = []
+    for _ in range(250 if tier == "quick" else 8000):
+        fcases.append({"files": C14.gen_tree(rng), "main": "main.slt", "mode": "run", "default_answer": ["rows", "I", [["1"]]], "meta": {}})
+    fres = corr.execute_file_family(C14, fcases, tier, vm_sample=8)
+    for d in fres["disagreements"]:
+        d["broken"] = "corr_C02_file"
+    res["disagreements"] += fres["disagreements"]
+    res["stats"]["run_file_evaluations"] = len(fcases)
+    res["stats"]["evaluations"] += len(fcases)
+    return res
 
 
 def project(case, obs):
